@@ -160,8 +160,9 @@ Section Segment.
       | QLeaf l => leaf_scorer sc l
       | QAll => if b1 then DAll max_doc else DWrap (DAll max_doc)
       | QEmpty => DEmpty
-      | QBoost one q' => scorer_model sc (b1 && one) q'
-      | QConst q' => DWrap (scorer_model sc b1 q')
+      (* BoostQuery::weight / ConstScoreQuery::weight return the inner weight itself when scoring is disabled *)
+      | QBoost one q' => if sc then scorer_model sc (b1 && one) q' else scorer_model sc b1 q'
+      | QConst q' => if sc then DWrap (scorer_model sc b1 q') else scorer_model sc b1 q'
       | QDisMax qs => bool_scorer 1 sc (map (fun q' => (Should, scorer_model sc b1 q')) qs)
       | QBool msm cs => bool_scorer msm sc (map (fun c => (fst c, scorer_model sc b1 (snd c))) cs)
       end.
@@ -169,10 +170,12 @@ Section Segment.
     (* Weight::for_each / for_each_no_score / for_each_pruning of the ROOT weight: BooleanWeight
        (boolean and disjunction-max queries) calls complex_scorer directly, without the shortcuts of
        scorer(); every other weight uses the default implementation (scorer(reader, 1.0)). *)
-    Definition collect_model (sc : bool) (q : query) : dexpr :=
+    Fixpoint collect_model (sc : bool) (q : query) : dexpr :=
       match q with
       | QDisMax qs => complex_scorer_of 1 sc (map (fun q' => (Should, scorer_model sc true q')) qs)
       | QBool msm cs => complex_scorer_of msm sc (map (fun c => (fst c, scorer_model sc true (snd c))) cs)
+      | QBoost _ q' => if sc then scorer_model sc true q else collect_model sc q'   (* no wrapper weight without scoring *)
+      | QConst q' => if sc then scorer_model sc true q else collect_model sc q'
       | _ => scorer_model sc true q
       end.
 
@@ -238,12 +241,15 @@ Fixpoint has_f31 (q : query) : bool :=
   | QBool msm cs => f31_node msm (map fst cs) || existsb (fun c => has_f31 (snd c)) cs
   end.
 
-(* the root node is evaluated by complex_scorer when collecting: only strict sub-queries count *)
-Definition has_f31_below_root (q : query) : bool :=
+(* the root node is evaluated by complex_scorer when collecting: only strict sub-queries count
+   (without scoring the boost / const-score wrappers are transparent, so the root is below them) *)
+Fixpoint has_f31_below_root (sc : bool) (q : query) : bool :=
   match q with
   | QDisMax qs => existsb has_f31 qs
   | QBool _ cs => existsb (fun c => has_f31 (snd c)) cs
-  | _ => has_f31 q
+  | QBoost _ q' => if sc then has_f31 q' else has_f31_below_root sc q'
+  | QConst q' => if sc then has_f31 q' else has_f31_below_root sc q'
+  | _ => false
   end.
 
 (* F32: phrase with at least 3 terms and a non-zero slop. *)
